@@ -14,7 +14,7 @@ impl Check for C06 {
         "C06"
     }
     fn plan(&self, tier: Tier) -> Plan {
-        let mut p = Plan::new(tier.pick(50_000, 2_000_000), tier.pick(30.0, 480.0));
+        let mut p = Plan::new(tier.pick(350_000, 35_000_000), tier.pick(30.0, 420.0));
         p.cpu_budget_s = 60.0;
         p
     }
